@@ -69,6 +69,10 @@ FILE_PROBES = [
      "(import (c))\n(import (util))\nvc", ["OK -", "OK -", "OK I 1"]),
     # a malformed file is an error of its own and poisons nothing
     ([("bad", "(define-library (bad) (export x"), ("a", _A)], "(import (bad))\n(import (a))\nva", ["ERR Syntax", "OK -", "OK I 1"]),
+    # names with several parts live in sub-directories of the PROGRAM's directory, also for the libraries they import and for later imports
+    ([("app/core", "(define-library (app core) (import (app util)) (export vcore) (begin (define vcore 1)))"), ("app/util", "(define-library (app util) (export vutil) (begin (define vutil 2)))"),
+      ("two", "(define-library (two) (export vtwo) (begin (define vtwo 2)))"), ("app/two", "(define-library (two) (export vtwo) (begin (define vtwo 99)))")],
+     "(import (app core))\n(import (two))\nvtwo", ["OK -", "OK -", "OK I 2"]),
     # cycles and diamonds through files
     ([("a", "(define-library (a) (import (b)) (export va) (begin (define va 1)))"), ("b", "(define-library (b) (import (a)) (export vb) (begin (define vb 1)))")], "(import (a))\n(+ 1 2)", ["ERR LibraryImportCyclic", "OK I 3"]),
     ([("a", "(define-library (a) (import (b) (c)) (export va) (begin (define va 1)))"), ("b", "(define-library (b) (import (d)) (export vb) (begin (define vb 1)))"),
@@ -301,9 +305,13 @@ def spec_registry(chk, NL):
         yield Ok(Opaque("PathBuf", "cwd"))
         yield Err(Opaque("std::io::Error", "io"))
 
-    @skel.stub(ex, r"Path::join|PathBuf::join|::with_extension|LibraryName::path$|<.*PathBuf as Deref>::deref|<.*PathBuf as Clone>::clone|<.*PathBuf as AsRef<.*>>::as_ref", "path arithmetic -> an opaque path")
+    @skel.stub(ex, r"Path::join|PathBuf::join|::with_extension|LibraryName::path$|<.*PathBuf as Deref>::deref|<.*PathBuf as Clone>::clone|<.*PathBuf as AsRef<.*>>::as_ref|Path::to_owned|Path::to_path_buf|<.*Path as ToOwned>::to_owned", "path arithmetic -> an opaque path")
     def path_ops(ex, callee, args, rt):
         yield Opaque("PathBuf", "path")
+
+    @skel.stub(ex, r"Path::parent$", "Path::parent -> some directory")
+    def path_parent(ex, callee, args, rt):
+        yield Some(Opaque("Path", "parent_directory"))
 
     @skel.stub(ex, r"Path::exists$", "Path::exists -> either")
     def exists(ex, callee, args, rt):
@@ -353,6 +361,8 @@ def spec_registry(chk, NL):
 
     it = Lazy("interpreter::Interpreter<R>", "it")
     it.fields[1] = Adt("LibraryLoader", None, [reg])
+    progdir = Lazy("std::option::Option<std::path::PathBuf>", "the_program_directory")        # set or not
+    it.fields[4] = progdir                       # Interpreter.program_directory: where library files are looked up
     located = Adt("Located", None, [target, Opaque("location", "loc")])
     f = ex.fn_by_suffix("::get_library")
     ex.panic_hook = lambda info: chk.oblige(ex, unit, "no-panic", z3.BoolVal(False), inputs, replay)
@@ -375,6 +385,8 @@ def spec_registry(chk, NL):
         for e in parsed:
             nm = e["name"]
             post.append(z3.BoolVal(isinstance(nm, LibName)) if not isinstance(nm, LibName) else nm.id == target_id)
+        # the directory library files are looked up in is the program's: loading a library does not move it
+        post.append(z3.BoolVal(it.fields.get(4) is progdir))
         errs = [e for e in ex.events if e["kind"] == "load_err"]
         news = [e for e in ex.events if e["kind"] == "new_library"]
         is_err = isinstance(rv, Adt) and rv.variant == "Err"
